@@ -60,7 +60,9 @@ def from_wwm(dset):
         Formated dataset with the SpecDataset accessor in the `spec` namespace.
 
     """
-    dset = dset.rename(MAPPING)
+    # Optional variables such as the depth may not be available in the dataset
+    vars_and_dims = set(dset.variables) | set(dset.dims)
+    dset = dset.rename({k: v for k, v in MAPPING.items() if k in vars_and_dims})
     # Calculating wind speeds and directions
     if "Uwind" in dset and "Vwind" in dset:
         dset[attrs.WSPDNAME], dset[attrs.WDIRNAME] = uv_to_spddir(
